@@ -17,7 +17,7 @@ CHECKS = {
         text="A generic simulation theorem (run_refines) shows that for every finite history the observations of the Go-code model equal those of the "
              "abstract list-of-parts specification; instantiated and proved for Polygon/MultiLineString (C02_poly_refines: Num, i-th part incl. empty parts, "
              "Coords concatenation, wrong-layout Push error and unchanged receiver, Reverse, Swap). GeometryCollection histories (variadic Push, SetLayout, Layout, Geom, Geoms) are proved to refine the list-of-parts spec with all-or-nothing Push "
-             "(C02_coll_refines, C02_coll_push_all_or_nothing, C02_coll_parts). MultiPoint histories with EMPTY points in position (C02_mpoint_refines) and MultiPolygon histories incl. the scan-back re-basing of Polygon(i) over empty polygons "
+             "(C02_coll_refines, C02_coll_push_all_or_nothing, C02_coll_parts, C02_coll_parts_payloads; the histories include the caller pushing into a nested member it still holds, after which the collection sees that member's new covering layout). MultiPoint histories with EMPTY points in position (C02_mpoint_refines) and MultiPolygon histories incl. the scan-back re-basing of Polygon(i) over empty polygons "
              "(scanBack_prefix, C02_mpoly_refines) are proved too. Go is run on the same histories and compared with both.",
         note=NOTE_COMMON + "Refinement is proved for all five multi-part types; pushed parts are assumed valid geometries of their own layout, layouts of positive stride.",
     ),
